@@ -19,6 +19,7 @@ structure Run where
   nextEnd : Nat
   matchedEnd : Nat
   steppedDown : Bool
+  pipelined : Bool := false   -- the run was one of pipelineReplicate: it ends when the caller stops it
 
 /-- the leader's (index, term) at `i`: a stored entry, the snapshot boundary, or the origin -/
 def termAtLeader (l : View) (i : Nat) : Option Nat :=
@@ -62,14 +63,14 @@ def staleRule (r : Run) : Option String :=
   else none
 
 def clean (r : Run) : Bool :=
-  r.faultFree && !r.steppedDown && r.trace.length < r.fuel && !r.leader.dead && !r.follower0.dead &&
+  !r.pipelined && r.faultFree && !r.steppedDown && r.trace.length < r.fuel && !r.leader.dead && !r.follower0.dead &&
   r.trace.all (fun p => !p.2.dead && !p.2.panic) && 1 ≤ r.next0 && r.next0 ≤ r.last + 1 &&
   r.last ≤ lastIndex r.leader.vol
 
 /-- C12: with nothing going wrong, replication is over well within the budget of requests (every
     refusal moves `nextIndex` down, every success moves it up: at most `next0 + last + 2` requests) -/
 def progress (r : Run) : Option String :=
-  if r.faultFree && !r.steppedDown && !r.leader.dead && !r.follower0.dead &&
+  if !r.pipelined && r.faultFree && !r.steppedDown && !r.leader.dead && !r.follower0.dead &&
      r.trace.all (fun p => !p.2.dead && !p.2.panic) && 1 ≤ r.next0 && r.next0 ≤ r.last + 1 &&
      r.last ≤ lastIndex r.leader.vol && r.next0 + r.last + 2 ≤ r.fuel && r.trace.length ≥ r.fuel
   then some s!"no-end-of-replication-after-{r.trace.length}-requests" else none
